@@ -421,3 +421,53 @@ package mqtt
 //@   assigns nothing
 //@   ensures[C01,C03] pushed: evCount("(*RetryClient).pushTask") == 1 && closureIs(evArg[taskFn]("(*RetryClient).pushTask", 0, 2), "(*RetryClient).Retry$1") &&
 //@        *closureVar[**RetryClient](evArg[taskFn]("(*RetryClient).pushTask", 0, 2), "(*RetryClient).Retry$1", 0) == c
+
+// ---- lifecycle: SetClient, Disconnect, Ping, Client, Stats ----
+
+// the channel in chConnSwitch is closed by SetClient only, which replaces it under the same lock hold
+//@ closer RetryClient.chConnSwitch (*RetryClient).SetClient
+
+//@ func (*RetryClient).SetClient
+//@   mode int
+//@   props C01 C17
+//@   requires c != nil
+//@   relies c.chConnSwitch == nil || !closed(c.chConnSwitch)
+//@   assigns c.chTask
+//@   ensures[C01] installed: c.cli == cli && c.chConnectErr != nil && fresh(c.chConnectErr) && c.chConnSwitch != nil && fresh(c.chConnSwitch)
+//@   ensures[C01] one_loop: evCount("go:(*RetryClient).SetClient$1") <= 1
+
+//@ func (*RetryClient).Disconnect$1
+//@   mode int
+//@   props C18
+//@   requires c != nil && cli != nil && ctx != nil && cli.Transport != nil
+//@   assigns cli.connState; cli.err
+//@   ensures[C18] request_ctx: evCount("(*BaseClient).Disconnect") == 1 && evCount("(*RetryClient).requestContext") == 1 &&
+//@        evArg[context.Context]("(*BaseClient).Disconnect", 0, 1) == evRet[context.Context]("(*RetryClient).requestContext", 0, 0)
+//@   ensures[C18] on_error: evRet[error]("(*BaseClient).Disconnect", 0, 0) != nil ==> evCount("(*RetryClient).onError") == 1
+
+//@ func (*RetryClient).Disconnect
+//@   mode int
+//@   props C09 C11
+//@   requires c != nil && ctx != nil
+//@   relies c.chTask != nil && !closed(c.chTask)
+//@   note Disconnect is called once, after SetClient (closing chTask twice would panic)
+//@   assigns nothing
+//@   ensures[C09,C11] stops: c.stopped && evCount("close") == 1 && evCount("(*RetryClient).pushTask") == 1 &&
+//@        closureIs(evArg[taskFn]("(*RetryClient).pushTask", 0, 2), "(*RetryClient).Disconnect$1")
+//@   ensures[C11] nonblocking: evCount("select") == 0 && evCount("recv") == 0 && evCount("send") == 0
+
+//@ func (*RetryClient).Ping
+//@   mode int
+//@   props C11 C18
+//@   requires c != nil && ctx != nil
+//@   relies c.cli != nil && c.cli.Transport != nil
+//@   assigns any BaseClient.stats
+//@   ensures[C18] request_ctx: evCount("(*BaseClient).Ping") == 1 && evCount("(*RetryClient).requestContext") == 1 &&
+//@        evArg[context.Context]("(*BaseClient).Ping", 0, 1) == evRet[context.Context]("(*RetryClient).requestContext", 0, 0)
+
+//@ func (*RetryClient).Client
+//@   mode int
+//@   props C10
+//@   requires c != nil
+//@   assigns nothing
+//@   ensures[C10] result == guardVal(&c.cli)
